@@ -984,6 +984,11 @@ fn main() {
 }
 
 fn real_main() {
+    // never outlive the check that started us: an orphan could keep a mount alive (and unserved) below the work
+    // directory; when the process dies its descriptors close and the kernel aborts its connections
+    unsafe {
+        libc::prctl(libc::PR_SET_PDEATHSIG, libc::SIGKILL);
+    }
     let a: Vec<String> = std::env::args().collect();
     let mode = a.get(1).map(|s| s.as_str()).unwrap_or("");
     match mode {
